@@ -66,7 +66,10 @@ def place_demo(d, demo, pkgs):
 
 def main():
     args = [a for a in sys.argv[1:] if not a.startswith("--")]
-    rnd = 3 if "--round3" in sys.argv else 2 if "--round2" in sys.argv else 1
+    rnd = 1
+    for a in sys.argv:
+        if a.startswith("--round"):
+            rnd = int(a[len("--round"):])
     pid = args[0]
     ks = args[1:] or ["1", "2"]
     out_dir = "/tmp/seed/%s.out%s" % (pid, str(rnd) if rnd > 1 else "")
